@@ -77,7 +77,7 @@ def run(ctx):
 
 
 def run_queries(ctx):
-    n = 25 if ctx.quick else 400
+    n = 60 if ctx.quick else 400
     for k in range(n):
         recursive = ctx.rng.random() < 0.3
         if recursive:
@@ -107,6 +107,7 @@ def run_queries(ctx):
         for qname, sem, f in seq:
             g = grammars[sem or 'real']
             before = snap_fgg(g)
+            earlier = g.copy()
             ctx.count(qname.split('[')[0])
             with warnings.catch_warnings():
                 warnings.simplefilter('ignore')
@@ -117,6 +118,9 @@ def run_queries(ctx):
                     res = ('raise', type(e).__name__)
             after = snap_fgg(g)
             ctx.evaluations += 1
+            if after == before and not (g == earlier):
+                ctx.fail(f'{qname} mutated its argument (the grammar no longer equals the copy taken before the call)', case, None, None,
+                         tags=['mutation', 'eq-copy', qname.split('[')[0]])
             if after != before:
                 what = diff_snap(before, after)
                 ctx.fail(f'{qname} mutated its argument ({what})', case, what, None, tags=['mutation', qname.split('[')[0]])
@@ -160,7 +164,7 @@ def apply_inplace(t, op, other):
 
 
 def run_clones(ctx):
-    n = 60 if ctx.quick else 1500
+    n = 200 if ctx.quick else 1500
     reqs, meta = [], []
     for k in range(n):
         nd = ctx.rng.choice([0, 1, 2, 2])
@@ -209,7 +213,7 @@ def run_clones(ctx):
     # MultiTensor clone isolation
     sr = fggs.RealSemiring(dtype=torch.float64)
     shapes = {'x': torch.Size([2]), 'y': torch.Size([])}
-    for k in range(20 if ctx.quick else 300):
+    for k in range(120 if ctx.quick else 1500):
         m = MultiTensor(shapes, sr)
         for key in shapes:
             if ctx.rng.random() < 0.8:
@@ -221,7 +225,9 @@ def run_clones(ctx):
         before = {k_: snap_tensor(v) for k_, v in m.items()}
         before_o = {k_: snap_tensor(v) for k_, v in o.items()}
         c = m.clone()
-        ops = [ctx.rng.choice(['iadd', 'isub', 'maximum_', 'copy_', 'add_single']) for _ in range(ctx.rng.randint(1, 4))]
+        ops = [ctx.rng.choice(['iadd', 'isub', 'maximum_', 'copy_', 'add_single', 'entry_imul', 'entry_copy_', 'entry_neg_']) for _ in range(ctx.rng.randint(1, 4))]
+        if k % 2 == 0:    # half of the sequences start with an operation that writes in place (before anything rebinds the entries)
+            ops[0] = ctx.rng.choice(['copy_', 'entry_imul', 'entry_copy_', 'entry_neg_'])
         ctx.case(dict(multi=list(before), ops=ops), ('multi', k), sample_every=50)
         ctx.count('multi-clone-sequence')
         try:
@@ -231,13 +237,23 @@ def run_clones(ctx):
                 elif op == 'maximum_': c.maximum_(o)
                 elif op == 'copy_': c.copy_(o)
                 elif op == 'add_single': c.add_single('x', PatternedTensor(torch.tensor([1.0, 1.0], dtype=torch.float64)))
+                elif op.startswith('entry_'):
+                    keys = list(c)
+                    if keys:
+                        key = ctx.rng.choice(keys)
+                        if op == 'entry_imul': c[key] *= 3.0
+                        elif op == 'entry_neg_': c[key].neg_()
+                        else: c[key].copy_(PatternedTensor(torch.full(tuple(shapes[key]), 9.0, dtype=torch.float64)))
         except Exception as e:  # noqa
             ctx.fail(f'MultiTensor.{op} raised {type(e).__name__}: {str(e)[:80]}', dict(ops=ops, keys=list(before), other=list(before_o)), repr(e), None,
                      tags=['raises', 'MultiTensor', op, type(e).__name__])
         if {k_: snap_tensor(v) for k_, v in m.items()} != before:
             ctx.fail('an in-place operation on a clone changed the source MultiTensor', dict(ops=ops), None, None, tags=['clone-isolation', 'MultiTensor'])
         # (values only: `c += o` stores o's tensors in c by reference, and a later c.copy_(o) re-freshens their axes)
-        if {k_: snap_tensor(v)[:5] for k_, v in o.items()} != {k_: v[:5] for k_, v in before_o.items()}:
+        # (not checked once an entry of c is written in place: after `c += o` / maximum_ an entry of c may BE o's tensor, which
+        # the property — about the source of the clone — does not forbid)
+        if not any(op.startswith('entry_') for op in ops) and \
+                {k_: snap_tensor(v)[:5] for k_, v in o.items()} != {k_: v[:5] for k_, v in before_o.items()}:
             ctx.fail('an in-place MultiTensor operation changed its other argument', dict(ops=ops), None, None, tags=['multi-arg', 'MultiTensor'])
 
 
